@@ -21,7 +21,7 @@ DEV_CFGS = {"NoFlushOnRefuse": "Flushed", "EarlyQueueRead": "Flushed", "UnlockBe
             "WritesAfterDisconnect": "LastIsDisconnect"}
 REF_CFGS = ["MC_OutPath_ref", "MC_OutPath_disc"]
 # which rules a property's check reports (the others are logged)
-RULES_OF = {"C34": ("C34.",), "C39": ("C39.",), "C12": ("C12.", "C03."), "C23": ("C23.",)}
+RULES_OF = {"C34": ("C34.",), "C39": ("C39.",), "C12": ("C12.", "C03."), "C23": ("C23.",), "C07": ("C07.",)}
 RULE_FINDING = {}
 
 # directed schedules (reference behaviours) around the places where the deviations differ from the code
@@ -43,6 +43,13 @@ WITNESSES = [
     dict(name="witness/refusal-flushes", cap=2, steps=[
         W("env", "pub:small", "loop.dequeued"), W("loop", "write.afterClosedCheck"), W("loop", "write.encoded"), W("env", "pub:over", "queued"),
         W("loop", "write.unlocked"), W("loop", "loop.dequeued"), W("loop", "write.afterClosedCheck"), W("loop", "conn.write"), W("loop", "idle")]),
+    # (aged: messages of an MQTT 5 publisher with an expiry of 1 s) a PINGRESP is buffered behind two queued messages, then time
+    # passes beyond their expiry while the write loop has not got to them: they are still written and carry the PINGRESP out
+    dict(name="witness/expired-while-queued", cap=2, aged=True, steps=[
+        W("env", "pub:small", "loop.dequeued"), W("env", "pub:small", "queued"), W("env", "ping", "write.afterClosedCheck"),
+        W("rd", "write.encoded"), W("rd", "write.unlocked"), W("rd", "read.handled"), W("rd", "idle"), W("env", "age"),
+        W("loop", "write.afterClosedCheck"), W("loop", "write.encoded"), W("loop", "write.unlocked"), W("loop", "loop.dequeued"),
+        W("loop", "write.afterClosedCheck"), W("loop", "write.encoded"), W("loop", "conn.write"), W("loop", "write.unlocked"), W("loop", "idle")]),
     # the reader has written DISCONNECT (protocol error of the client) and has not yet stopped the client when the write
     # loop gets to a queued PUBLISH: it must not follow the DISCONNECT
     dict(name="witness/nothing-after-disconnect", cap=2, steps=[
@@ -115,17 +122,18 @@ def design(ctx):
 
 def generate(ctx, num):
     scs = []
-    for cfg in ("Gen_OutPath", "Gen_OutPath_cap1", "Gen_OutPath_disc"):
+    for cfg in ("Gen_OutPath", "Gen_OutPath_cap1", "Gen_OutPath_disc", "Gen_OutPath_aged"):
         out = ctx.path("gen", "outpath_" + cfg, "x")[:-2]
         r = ctx.tlc("GenOutPath", cfg + ".cfg", name="gen_" + cfg, workers=1, heap="4g", timeout=1500,
-                    simulate="num=%d" % (num if cfg == "Gen_OutPath" else max(num // 3, 10) if cfg.endswith("cap1") else max(num // 2, 10)), depth=70, extra=["-seed", str(ctx.seed * 104729 + len(cfg))],
+                    simulate="num=%d" % (num if cfg == "Gen_OutPath" else max(num // 3, 10) if cfg.endswith("cap1") else max(num // 30, 4) if cfg.endswith("aged") else max(num // 2, 10)), depth=70, extra=["-seed", str(ctx.seed * 104729 + len(cfg))],
                     env={"VERIF_OUT": out, "VERIF_MINLEN": "8"})
         if r.rc != 0:
             sys.stderr.write(r.tail(30))
             raise Inconclusive("GenOutPath %s failed" % cfg)
         for f in sorted(glob.glob(os.path.join(out, "b_*.json"))):
             b = json.load(open(f))
-            scs.append(dict(name="%s/%s" % (cfg[4:], os.path.basename(f)[:-5]), cap=b["cap"], steps=[dict(w=h[0], g=h[1], og=h[2]) for h in b["hist"]]))
+            scs.append(dict(name="%s/%s" % (cfg[4:], os.path.basename(f)[:-5]), cap=b["cap"], aged=cfg.endswith("aged"),
+                            steps=[dict(w=h[0], g=h[1], og=h[2]) for h in b["hist"]]))
     return scs
 
 
@@ -133,17 +141,17 @@ def _run_and_judge(ctx, scs, tag):
     """force the schedules on the real client, let TLC judge the record; returns (lines, bad, trace states)"""
     vo = ctx.go_build("vout")
     lines, bad, tstates = [], [], 0
-    for cap in (1, 2):
-        part = [s for s in scs if s["cap"] == cap]
+    for cap, cfgname in ((1, "TraceOutPath_cap1.cfg"), (2, "TraceOutPath_cap2.cfg"), ("aged", "TraceOutPath_aged.cfg")):
+        part = [s for s in scs if (s.get("aged") and cap == "aged") or (not s.get("aged") and s["cap"] == cap)]
         if not part:
             continue
-        sfile, tfile, vfile = (ctx.path("gen", "out_scen_%s%d.json" % (tag, cap)), ctx.path("traces", "outpath_%s%d.ndjson" % (tag, cap)),
-                               ctx.path("gen", "out_verdict_%s%d.json" % (tag, cap)))
+        sfile, tfile, vfile = (ctx.path("gen", "out_scen_%s%s.json" % (tag, cap)), ctx.path("traces", "outpath_%s%s.ndjson" % (tag, cap)),
+                               ctx.path("gen", "out_verdict_%s%s.json" % (tag, cap)))
         json.dump(part, open(sfile, "w"))
         if os.path.exists(vfile):
             os.remove(vfile)
         ctx.run([vo, "run", sfile, tfile], timeout=3000)
-        r = ctx.tlc("TraceOutPath", "TraceOutPath_cap%d.cfg" % cap, name="trace_outpath_%s%d" % (tag, cap), workers=1, heap="6g", timeout=3000,
+        r = ctx.tlc("TraceOutPath", cfgname, name="trace_outpath_%s%s" % (tag, cap), workers=1, heap="6g", timeout=3000,
                     env={"VERIF_TRACE": tfile, "VERIF_OUT": vfile})
         if not os.path.exists(vfile):
             sys.stderr.write(r.tail(40))
